@@ -18,7 +18,7 @@
 
    "leaks nothing" is not a statement about the model; it is checked on the
    real code only (harness: blocks outstanding after teardown, ASan). *)
-From DV Require Import Spec.OomSpec Proofs.OomGeneric Proofs.OomLists Proofs.OomHandlers Proofs.OomMain Proofs.OomRefute.
+From DV Require Import Spec.OomSpec Proofs.OomGeneric Proofs.OomLists Proofs.OomHandlers Proofs.OomMain Proofs.OomRefute Proofs.OomTight.
 Local Open Scope N_scope.
 
 (* ---- the literal statement and its refutation ------------------------------------------------ *)
@@ -133,6 +133,38 @@ Theorem C14_replace_refuted :
             step b (EvRequest 2 nameA 2) <> OStop.
 Proof. exact replace_refuted. Qed.
 Print Assumptions C14_replace_refuted.
+
+(* ---- ... and, for four of the classes, the exception is exact: EVERY state of the class has a
+   failing index at which NoMemory is reported although the state changed ------------------------- *)
+Theorem C14_tight_release_waiter : forall b c cn name p w o,
+  inv b -> find_conn (b_conns b) c = Some cn -> c_active cn = true -> name_refused name = false ->
+  lookup (b_services b) (KW name) = Some (p :: w) -> (o_conn p =? c) = false -> find_owner w c = Some o ->
+  exists b', step_oom 3 b (EvRelease c name) = OOk b' [(c, MError ENoMemory)] /\ ~ same_state b' b.
+Proof. exact tight_release_waiter. Qed.
+Print Assumptions C14_tight_release_waiter.
+
+Theorem C14_tight_exists_waiter : forall b c cn name flags p w o,
+  inv b -> find_conn (b_conns b) c = Some cn -> c_active cn = true -> name_refused name = false ->
+  (b_maxnames b <=? nlen (c_owned cn)) = false ->
+  lookup (b_services b) (KW name) = Some (p :: w) -> (o_conn p =? c) = false -> find_owner w c = Some o ->
+  (has_flag flags DBUS_NAME_FLAG_DO_NOT_QUEUE && negb (o_allow p)) || (has_flag flags DBUS_NAME_FLAG_DO_NOT_QUEUE && negb (has_flag flags DBUS_NAME_FLAG_REPLACE_EXISTING)) = true ->
+  exists b', step_oom 3 b (EvRequest c name flags) = OOk b' [(c, MError ENoMemory)] /\ ~ same_state b' b.
+Proof. exact tight_exists_waiter. Qed.
+Print Assumptions C14_tight_exists_waiter.
+
+Theorem C14_tight_owner_flags : forall b c cn name flags p w,
+  inv b -> find_conn (b_conns b) c = Some cn -> c_active cn = true -> name_refused name = false ->
+  (b_maxnames b <=? nlen (c_owned cn)) = false ->
+  lookup (b_services b) (KW name) = Some (p :: w) -> (o_conn p =? c) = true -> same_flags p flags = false ->
+  exists b', step_oom 3 b (EvRequest c name flags) = OOk b' [(c, MError ENoMemory)] /\ ~ same_state b' b.
+Proof. exact tight_owner_flags. Qed.
+Print Assumptions C14_tight_owner_flags.
+
+Theorem C14_tight_hello : forall b c cn,
+  find_conn (b_conns b) c = Some cn -> c_active cn = false ->
+  exists b', step_oom 9 b (EvHello c) = OOk b' [(c, MError ENoMemory)] /\ ~ same_state b' b.
+Proof. exact tight_hello. Qed.
+Print Assumptions C14_tight_hello.
 
 (* ---- the hypotheses are satisfiable and both disjuncts occur ---------------------------------------- *)
 Definition ex_hist : list event :=
